@@ -61,7 +61,9 @@ class Ctx:
             for d in body.defs.get(0, []):
                 if d[0] == 'stmt' and d[3]['k'] == 'aggr' and d[3]['ak'].get('variant') == 'Ok':
                     out.append(d[1])
-            return out
+                elif d[0] == 'call' and d[2].qname != 'std::ops::FromResidual::from_residual':
+                    out.append(d[1])  # a forwarded Result: may be a success
+            return out or body.returns()
         return body.returns()
 
     def dep_variants(self, body, operand, depth=0):
@@ -600,6 +602,12 @@ def make_val_events(ctx):
         for e in some_edges:
             seen = body.reach([e], avoid=ctx.both(inf, lambda x: x in tb))
             if nx.bb in seen or any(r in seen for r in body.returns()):
+                return None
+        none_edges = {n for n, g in guard_edges_on_call(body, nx) if g.variants() == frozenset(['None'])}
+        for e in some_edges:
+            # every recorded reader is examined: the loop is left only when the iterator is exhausted (or by aborting)
+            seen = body.reach([e], avoid=ctx.both(inf, lambda x: x in none_edges))
+            if any(r in seen for r in body.returns()):
                 return None
         srcs = set()
         for t in ts:
